@@ -61,7 +61,7 @@ class Obl:
     def __init__(self, name, harness, units, defs=None, unwind=8, unwindset=(), tiers=("quick", "thorough"),
                  timeout=None, mem_gb=6, backend=None, witness=True, extra_flags=(), props=(),
                  expect_known=None, note="", checks=True, replay=True, maxcpy=32, group=None, weight=1,
-                 no_heap=True, helper_unwind=34, str_max=16, allow_vacuous=False):
+                 no_heap=True, helper_unwind=34, str_max=16, allow_vacuous=False, harness_unwind=None):
         self.name, self.harness, self.units = name, harness, list(units)
         self.defs = dict(defs or {})
         self.unwind, self.unwindset, self.tiers = unwind, tuple(unwindset), tiers
@@ -71,6 +71,7 @@ class Obl:
         self.maxcpy = maxcpy
         self.no_heap, self.helper_unwind, self.str_max = no_heap, helper_unwind, str_max
         self.allow_vacuous = allow_vacuous
+        self.harness_unwind = harness_unwind
         self.group = group or name
         self.weight = weight
 
@@ -324,6 +325,23 @@ class Engine:
                 txt = ""
             for m in set(re.findall(r"\b(\w*F_\w*vk_put\w*)\(", txt)):
                 sets.append(f"{m}.0:{hl}")
+        if obl.harness_unwind:
+            # loops of the harness / reference models / INV get their own bound, so that --unwind only governs the loops of
+            # the translated real code (their trip counts are bounded by the concrete input lengths of the query)
+            try:
+                lr = subprocess.run(["cbmc", src, "--show-loops", "--json-ui", "-I", os.path.join(VERIF, "ll2c"), "-I", os.path.join(VERIF, "harness"),
+                                     "-I", os.path.join(VERIF, "ref"), f"-DLL2C_MAXCPY={obl.maxcpy}"] + (["-DVK_NO_HEAP=1"] if obl.no_heap else []),
+                                    capture_output=True, text=True, timeout=120)
+                have = set(x.split(":")[0] for x in sets)
+                for item in json.loads(lr.stdout):
+                    for lp in (item.get("loops") or []) if isinstance(item, dict) else []:
+                        name = lp.get("name", "")
+                        fn = name.rsplit(".", 1)[0]
+                        if name in have or re.match(r"^(\w*?)F_", fn) or fn.startswith(("ll2c_", "X_")):
+                            continue
+                        sets.append(f"{name}:{obl.harness_unwind}")
+            except Exception as e:  # noqa
+                log("show-loops failed:", str(e)[:100])
         cmd = ["cbmc", src, "--function", "harness", "--unwind", str(obl.unwind), "--unwinding-assertions",
                "--unwindset", ",".join(sets),
                "--drop-unused-functions", "--json-ui", "--trace", "--no-standard-checks",
